@@ -185,6 +185,7 @@ def atomic_idiom_rule(ctx, rule, fv, who):
 
 
 def take_rule(ctx, fc):
+    rule_locked_take(ctx, "C07.T", fc, 1)
     if rule_spawn_count(ctx, "C07.T", fc, "count_chunk") < 1:
         ctx.fail("C07.T", "count_chunk:spawn_count:floor", "no `for _ in 0..threads` worker spawn loop found", fc.fn["sp"])
     clo = worker_closure(fc)
